@@ -41,8 +41,14 @@ class StoreTransaction(ABC):
         pass
 
     @abstractmethod
-    def update_workflow_status(self, workflow: Workflow) -> None:
-        """Update workflow status within the transaction."""
+    def update_workflow_status(self, workflow: Workflow, expected_status: str | None = None) -> None:
+        """Update workflow status within the transaction.
+
+        With ``expected_status`` the update is a compare-and-swap: it only
+        applies while the stored row still has that status and its canceled
+        flag is what ``workflow`` was loaded with; otherwise ConcurrencyError
+        is raised (atomic backends) so the caller re-reads and decides again.
+        """
         pass
 
     @abstractmethod
